@@ -646,7 +646,7 @@ func notFresh(eng *vc.Engine, fn *ssa.Function, v ssa.Value, seen map[ssa.Value]
 	seen[v] = true
 	switch x := v.(type) {
 	case *ssa.Alloc:
-		return ""
+		return sharedBeforeReturn(fn, x)
 	case *ssa.Const:
 		if x.Value == nil {
 			return ""
@@ -676,10 +676,10 @@ func notFresh(eng *vc.Engine, fn *ssa.Function, v ssa.Value, seen map[ssa.Value]
 			return "the result of a dynamic call"
 		}
 		if callee == fn {
-			return ""
+			return sharedBeforeReturn(fn, x)
 		}
 		if cs := eng.Spec.Funcs[vc.FuncName(callee)]; cs != nil && cs.ReturnsFresh {
-			return ""
+			return sharedBeforeReturn(fn, x)
 		}
 		return "the result of " + vc.FuncName(callee) + ", which has no returns_fresh contract"
 	case *ssa.UnOp:
@@ -700,6 +700,108 @@ func notFresh(eng *vc.Engine, fn *ssa.Function, v ssa.Value, seen map[ssa.Value]
 		return "the parameter " + x.Name()
 	}
 	return fmt.Sprintf("a %T", v)
+}
+
+// sharedBeforeReturn explains how the object v (allocated by fn, or obtained
+// fresh from a callee) became reachable from memory that outlives the call
+// before fn returns it ("" if it did not): the pointer - directly, boxed in an
+// interface or converted - is handed to a call as an argument, sent on a
+// channel, put in a map that fn did not make, or stored to an address that is
+// not inside an object fn allocated itself. Such an object is no longer owned
+// by the caller alone. Closures fn creates may capture it (not followed).
+func sharedBeforeReturn(fn *ssa.Function, v ssa.Value) string {
+	seen := map[ssa.Value]bool{}
+	var walk func(x ssa.Value) string
+	walk = func(x ssa.Value) string {
+		if seen[x] {
+			return ""
+		}
+		seen[x] = true
+		refs := x.Referrers()
+		if refs == nil {
+			return ""
+		}
+		for _, r := range *refs {
+			switch u := r.(type) {
+			case *ssa.MakeInterface:
+				if why := walk(u); why != "" {
+					return why
+				}
+			case *ssa.ChangeInterface:
+				if why := walk(u); why != "" {
+					return why
+				}
+			case *ssa.ChangeType:
+				if why := walk(u); why != "" {
+					return why
+				}
+			case *ssa.Phi:
+				if why := walk(u); why != "" {
+					return why
+				}
+			case *ssa.Store:
+				if u.Val == x && !addrInLocalObject(u.Addr) {
+					return fmt.Sprintf("an object that was stored to memory the call did not allocate (%s)", shortPath(fn.Prog.Fset.Position(u.Pos()).String()))
+				}
+			case *ssa.MapUpdate:
+				if u.Value == x || u.Key == x {
+					if _, local := u.Map.(*ssa.MakeMap); !local {
+						return fmt.Sprintf("an object that was put in a map (%s)", shortPath(fn.Prog.Fset.Position(u.Pos()).String()))
+					}
+				}
+			case *ssa.Send:
+				if u.X == x {
+					return "an object that was sent on a channel"
+				}
+			case ssa.CallInstruction:
+				c := u.Common()
+				for _, a := range c.Args {
+					if a == x {
+						name := "a dynamic callee"
+						if sc := c.StaticCallee(); sc != nil {
+							name = vc.FuncName(sc)
+						} else if c.IsInvoke() {
+							name = c.Method.Name()
+						} else if b, ok := c.Value.(*ssa.Builtin); ok {
+							name = b.Name()
+							if name == "append" || name == "len" || name == "cap" {
+								continue
+							}
+						}
+						return fmt.Sprintf("an object that was handed to %s before being returned (%s)", name, shortPath(fn.Prog.Fset.Position(u.Pos()).String()))
+					}
+				}
+			}
+		}
+		return ""
+	}
+	return walk(v)
+}
+
+// addrInLocalObject: the address is a field or element (at any depth of
+// embedding, not through a loaded pointer) of an allocation of this function.
+func addrInLocalObject(a ssa.Value) bool {
+	for {
+		switch x := a.(type) {
+		case *ssa.Alloc:
+			return true
+		case *ssa.FieldAddr:
+			a = x.X
+		case *ssa.IndexAddr:
+			switch y := x.X.(type) {
+			case *ssa.Alloc:
+				return true
+			case *ssa.MakeSlice:
+				return true
+			case *ssa.Slice:
+				a = y.X
+			default:
+				return false
+			}
+		default:
+			return false
+		}
+	}
 }
 
 // sliceElemsNotFresh: "" if every element the local slice value s can hold was
